@@ -33,3 +33,17 @@ package dashboards
 //@   site call os.WriteFile #1:
 //@     assert [write-confined] uf("confined", bool, arg0)
 //@ end
+
+// deleteDashboard builds the file name from the raw id; what confines it is
+// that the id has been found among the items of the folder structure (ids
+// there are minted by the server) BEFORE any file is touched: the ghost flag
+// records the outcome of that membership test and the removal asserts it.
+//@ ghostdecl dashIdRegistered int
+//@ func deleteDashboard
+//@   props C19
+//@   ghostinit ghost(0, "dashIdRegistered") == 0
+//@   site mapread structure.Items[id] #1:
+//@     ghostset ghost(0, "dashIdRegistered") = ite(ok, 1, 0)
+//@   site call os.Remove #1:
+//@     assert [only-files-of-registered-dashboards-are-removed] ghost(0, "dashIdRegistered") == 1
+//@ end
